@@ -22,7 +22,7 @@ fn quote_cell(s: &str, force: bool) -> String {
 }
 
 fn gen_rows(rng: &mut Rng) -> Vec<SrcRow> {
-    let surf = ["東京", "a", "a,b", "q\"t", " ", "x y", "", "京都", "a", "東", "\"", "1,2,\"3\"", "é", "😀", "ab"];
+    let surf = ["東京", "a", "a,b", "q\"t", " ", "x y", "", "京都", "a", "東", "\"", "1,2,\"3\"", "é", "😀", "ab", "#", "#tag", ";x"];
     let cells = ["名詞", "f", "", "*", "a b", "x,y", "i\"j", " ", "終", "l1\nl2"];
     // 1 case in 20: one surface with 255..600 homographs (posting lists longer than one byte can count)
     let many = rng.chance(1, 20);
